@@ -32,13 +32,15 @@ def resolve(sim, when):
     return sim.now
 
 
-def drive(sim, steps, execute, after_group=None, trace=None, barrier=None):
-    """barrier(step) -> True: the step ends its group (it is followed by an idle point before further input)"""
+def drive(sim, steps, execute, after_group=None, trace=None, barrier=None, splitter=None):
+    """barrier(step) -> True: the step forms a group of its own (idle points before and after it);
+    splitter(steps_of_group_so_far, step) -> True: the step may not join this group (it starts the next one)"""
     i = 0
     n = len(steps)
     while i < n:
         j = i + 1
-        while j < n and steps[j].get("when", ["d", 0.01])[0] == "s" and not (barrier and barrier(steps[j - 1])):
+        while (j < n and steps[j].get("when", ["d", 0.01])[0] == "s" and not (barrier and barrier(steps[j - 1]))
+               and not (barrier and barrier(steps[j])) and not (splitter and splitter(steps[i:j], steps[j]))):
             j += 1
         t = resolve(sim, steps[i].get("when", ["d", 0.01]))
 
